@@ -73,12 +73,21 @@ func (vi viewImage) At(off int64, n int) []byte {
 
 // runISOCase builds the image of root/rel. permIdx selects the enumeration order applied to every directory
 // listing (sorted order permuted by the permIdx-th permutation).
-func runISOCase(root, rel string, ps3 bool, permIdx int, titleID string, huge bool) (res *isoCaseResult) {
+func runISOCase(root, rel string, ps3 bool, permIdx int, titleID string, huge bool, readCap int) (res *isoCaseResult) {
 	res = &isoCaseResult{}
 	leaf := newVFs(afero.NewOsFs(), "leaf")
 	leaf.record = false
 	leaf.SortDirs = true
 	leaf.Perm = func(n int) []int { return kthPerm(n, permIdx) }
+	if readCap > 0 {
+		// the filesystem legally returns at most readCap bytes per Read
+		leaf.Hook = func(e FsEvent) *FsFault {
+			if e.Op == "Read" && e.N > readCap {
+				return &FsFault{Short: readCap}
+			}
+			return nil
+		}
+	}
 	var v *pfs.VirtualISO
 	func() {
 		defer func() {
@@ -133,6 +142,7 @@ type isoCase struct {
 	titleID string
 	huge    bool
 	family  string
+	readCap int // > 0: every underlying Read returns at most this many bytes
 }
 
 // isoTreeCases enumerates the tree space shared by C07/C08/C18.
@@ -297,6 +307,30 @@ func isoFamilyCases(thorough bool, structural bool, visit func(c isoCase)) {
 			mkFileAbs(filepath.Join(dir, "d", "zz_after.bin"), 2049, 3, baseTime)
 		}})
 	}
+	// symbolic links the operator placed in the tree are followed, as everywhere in the server: a link to a file
+	// is a file with the target's size and bytes, a link to a directory is a directory with the target's content
+	for _, abs := range []bool{false, true} {
+		abs := abs
+		visit(isoCase{desc: sprintf("symlinks absolute=%v", abs), family: "symlinks", build: func(dir string) {
+			mkFileAbs(filepath.Join(dir, "store", "real.bin"), 70000, 5, baseTime)
+			mkFileAbs(filepath.Join(dir, "store", "tiny.bin"), 3, 6, baseTime)
+			mkFileAbs(filepath.Join(dir, "store", "inner", "deep.bin"), 2049, 7, baseTime)
+			tgt := func(rel, from string) string {
+				if abs {
+					return filepath.Join(dir, rel)
+				}
+				r, err := filepath.Rel(filepath.Join(dir, from), filepath.Join(dir, rel))
+				must(err)
+				return r
+			}
+			must(os.Symlink(tgt("store/real.bin", "."), filepath.Join(dir, "linked.bin")))
+			must(os.Symlink(tgt("store/tiny.bin", "."), filepath.Join(dir, "a-rather-long-name-for-a-link-to-a-three-byte-file.bin")))
+			must(os.Symlink(tgt("store/inner", "."), filepath.Join(dir, "dlink")))
+			must(os.MkdirAll(filepath.Join(dir, "sub"), 0o755))
+			must(os.Symlink(tgt("store", "sub"), filepath.Join(dir, "sub", "again")))
+			must(os.Symlink(tgt("linked.bin", "sub"), filepath.Join(dir, "sub", "hop.bin"))) // link to a link
+		}})
+	}
 	if !structural {
 		return
 	}
@@ -352,6 +386,15 @@ func isoFamilyCases(thorough bool, structural bool, visit func(c isoCase)) {
 			}})
 		}
 	}
+	// the filesystem returns short reads (network/FUSE mounts): same image, in particular the same product code
+	for _, rc := range []int{1, 2, 3, 4, 5, 6, 7, 8, 9, 15, 16, 17, 63, 2047} {
+		rc := rc
+		visit(isoCase{desc: sprintf("sfo with reads capped at %d bytes", rc), family: "shortreads", ps3: true, titleID: "BLUS12345", readCap: rc, build: func(dir string) {
+			writeFileAbs(filepath.Join(dir, "PS3_GAME", "PARAM.SFO"), mkSFO([]sfoKV{{"APP_VER", "01.00"}, {"CATEGORY", "DG"}, {"TITLE", "Some Game"}, {"TITLE_ID", "BLUS12345"}, {"VERSION", "01.02"}}), baseTime)
+			mkFileAbs(filepath.Join(dir, "PS3_GAME", "USRDIR", "EBOOT.BIN"), 4097, 1, baseTime)
+			mkFileAbs(filepath.Join(dir, "data.bin"), 70000, 2, baseTime)
+		}})
+	}
 	for _, tid := range []string{"BLUS30001", "NPEB00001", "ABCD12345"} {
 		tid := tid
 		visit(isoCase{desc: "sfo title " + tid, family: "sfo", ps3: true, titleID: tid, build: func(dir string) {
@@ -365,9 +408,9 @@ func runISOProperty(t *testing.T, prop string) {
 	defer r.Done()
 	structural := prop == "C08"
 	if structural {
-		r.Rule("every tree with <= N nodes (dirs / files of size 0,1,2047,2048,2049) x every enumeration order of directory listings x {plain, PS3}; families: 1..300 entries per directory, chain depth 0..8, up to 1100 directories, name length 1..255, non-ASCII and colliding names, root-name length, sparse files around 4 GiB..9 GiB, PARAM.SFO key orders/entry counts; oracle = strict ECMA-119/Joliet/PS3 validator written from the standard; distinct by case description")
+		r.Rule("every tree with <= N nodes (dirs / files of size 0,1,2047,2048,2049) x every enumeration order of directory listings x {plain, PS3}; families: 1..300 entries per directory, chain depth 0..8, up to 1100 directories, name length 1..255, non-ASCII and colliding names, root-name length, symbolic links, sparse files around 4 GiB..9 GiB, PARAM.SFO key orders/entry counts, every Read capped at 1..2047 bytes; oracle = strict ECMA-119/Joliet/PS3 validator written from the standard; distinct by case description")
 	} else {
-		r.Rule("every tree with <= N nodes (dirs / files of size 0,1,2047,2048,2049) x every enumeration order of directory listings x {plain, PS3}; families: 1..300 entries per directory, chain depth 0..8, up to 1100 directories, sizes around 64 KiB, sparse files around 4 GiB..9 GiB; oracle = independent ISO 9660/Joliet reader: both hierarchies hold exactly the source entries with exact sizes and bytes; distinct by case description")
+		r.Rule("every tree with <= N nodes (dirs / files of size 0,1,2047,2048,2049) x every enumeration order of directory listings x {plain, PS3}; families: 1..300 entries per directory, chain depth 0..8, up to 1100 directories, sizes around 64 KiB, sparse files around 4 GiB..9 GiB, symbolic links to files and directories (relative, absolute, chained); oracle = independent ISO 9660/Joliet reader: both hierarchies hold exactly the source entries with exact sizes and bytes; distinct by case description")
 	}
 	base := filepath.Join(scratchBase(), sprintf("verifh-%s-%d", strings.ToLower(prop), os.Getpid()))
 	root := filepath.Join(base, "root")
@@ -398,7 +441,7 @@ func runISOProperty(t *testing.T, prop string) {
 		dir := filepath.Join(root, rel)
 		must(os.MkdirAll(dir, 0o755))
 		c.build(dir)
-		res := runISOCase(root, rel, c.ps3, c.perm, c.titleID, c.huge)
+		res := runISOCase(root, rel, c.ps3, c.perm, c.titleID, c.huge, c.readCap)
 		r.Transition(1)
 		r.State(c.desc)
 		rep := map[string]any{"case": c.desc, "ps3": c.ps3, "enumeration_perm": c.perm}
